@@ -227,29 +227,40 @@ def check_dispatch(c, f, loop):
     written as if/elif/else, as guard clauses, with `or` or with its De Morgan dual"""
     g = f.cfg
     # the response object: `responses[index]` written out, or a local that holds it (`response = responses[index]`, bound once, inside the loop)
-    cands = ['responses[index]'] + [k_ for k_, v_ in aliases_of(f).single_assign.items() if norm(v_) == 'responses[index]']
-    R = S = None
-    for R_ in cands:
-        for t in g.nodes:
-            if t.kind == 'test' and t.ast is not None:
-                for a_, v_ in expand_condition(t.ast, True) | expand_condition(t.ast, False):
-                    if a_.startswith('isinstance(%s' % R_) and 'allowed_string_types' in a_:
-                        R, S = R_, a_
+    # (the written-out form and such a local hold the same object within an iteration: texts are compared with the local written out)
+    import re as _re
+    aliases = [k_ for k_, v_ in aliases_of(f).single_assign.items() if norm(v_) == 'responses[index]']
+    R = 'responses[index]'
+
+    def eqv(text):
+        for al_ in aliases:
+            text = _re.sub(r'(?<![\w.])%s(?![\w])' % _re.escape(al_), R, text)
+        return text
+
+    def conds(n):
+        return set((eqv(a_), v_) for a_, v_ in conditions(g, n))
+    S = None
+    for t in g.nodes:
+        if t.kind == 'test' and t.ast is not None:
+            for a_, v_ in expand_condition(t.ast, True) | expand_condition(t.ast, False):
+                a_ = eqv(a_)
+                if a_.startswith('isinstance(%s' % R) and 'allowed_string_types' in a_:
+                    S = a_
     c.need(S is not None, 'dispatch: isinstance(responses[index], <string types>) test not found')
     F, M = 'isinstance(%s, types.FunctionType)' % R, 'isinstance(%s, types.MethodType)' % R
     disp = lambda cs: set((a_, v_) for a_, v_ in cs if a_.startswith('isinstance(%s' % R))
-    sends = [(n, k) for n, k in cfg_nodes_with_call(f, lambda k: callee_last(k) == 'send') if k.args and norm(k.args[0]) == R]
-    ok = len(sends) == 1 and disp(conditions(g, sends[0][0])) == {(S, True)}
+    sends = [(n, k) for n, k in cfg_nodes_with_call(f, lambda k: callee_last(k) == 'send') if k.args and eqv(norm(k.args[0])) == R]
+    ok = len(sends) == 1 and disp(conds(sends[0][0])) == {(S, True)}
     c.check(ok, f, sends[0][1] if sends else None, 'first case: a string response is sent to the child exactly once', witness=str([norm(k) for n, k in sends]), kind='path', tag='string-sent')
     # anything that is neither string nor function nor method raises TypeError -- under exactly that condition
-    rs = [n for n in raises(f) if any(a_.startswith('isinstance(%s' % R) for a_, v_ in conditions(g, n))]
-    got = disp(conditions(g, rs[0])) if len(rs) == 1 else None
+    rs = [n for n in raises(f) if any(a_.startswith('isinstance(%s' % R) for a_, v_ in conds(n))]
+    got = disp(conds(rs[0])) if len(rs) == 1 else None
     c.check(got == {(S, False), (F, False), (M, False)} and raised_class(rs[0].ast, f) == 'TypeError', f, rs[0].ast if rs else None,
             'any other response object (not a string, not a function, not a method) raises TypeError', witness='raised under %s' % sorted(got or []), kind='path', tag='case-else')
     c.check(got is not None and (F, False) in got and (M, False) in got, f, rs[0].ast if rs else None, 'second case: function OR method', witness=str(sorted(got or [])), kind='path', tag='case-callable')
-    calls_ = [(n, k) for n in g.nodes if n in g.live_nodes() for k in node_calls(n) if norm(k.func) == R]
+    calls_ = [(n, k) for n in g.nodes if n in g.live_nodes() for k in node_calls(n) if eqv(norm(k.func)) == R]
     ok = len(calls_) == 1 and len(calls_[0][1].args) == 1 and norm(calls_[0][1].args[0]) == 'locals()' and isinstance(calls_[0][0].ast, ast.Assign) \
-        and disp(conditions(g, calls_[0][0])) <= {(S, False), (F, True), (M, True)} and (S, False) in conditions(g, calls_[0][0]) \
+        and disp(conds(calls_[0][0])) <= {(S, False), (F, True), (M, True)} and (S, False) in conds(calls_[0][0]) \
         and (not rs or g.path(rs[0], calls_[0][0], skip_labels=('exc',)) is None)
     c.check(ok, f, calls_[0][1] if calls_ else None, 'the callback is called once with the state dictionary locals()', kind='path', tag='callback-call')
     if ok:
